@@ -252,3 +252,22 @@ def numeric_option_truthiness(ctx, rid, rels, what):
         for nm in cands:
             ctx.ok(rid, f, f"{q}: optional numeric parameter {nm!r} is never tested by truthiness")
     return n
+
+
+def numeric_or_default(ctx, rid, rels, what, funcs=None):
+    """`value or <numeric default>` replaces a legitimate 0.0 by the default."""
+    n = 0
+    for m, q, f in ctx.tree.all_funcs(rels):
+        if funcs is not None and q not in funcs:
+            continue
+        for x in walk_local(f):
+            if isinstance(x, ast.BoolOp) and isinstance(x.op, ast.Or) and len(x.values) >= 2:
+                last = x.values[-1]
+                first = x.values[0]
+                numeric_default = (isinstance(last, ast.Constant) and isinstance(last.value, (int, float)) and not isinstance(last.value, bool)) or (
+                    isinstance(last, ast.Call) and dotted(last.func) in ("float", "int", "np.float64", "np.nan"))
+                value_like = isinstance(first, (ast.Name, ast.Call, ast.Subscript, ast.Attribute)) and not (isinstance(first, ast.Call) and dotted(first.func) in ("isinstance", "hasattr", "callable", "len", "any", "all"))
+                if numeric_default and value_like:
+                    n += 1
+                    ctx.bad(rid, x, f"{q}: `{short(x, 60)}` replaces a value of 0.0 by the default ({what})", construct=short(x, 70))
+    return n
